@@ -10,6 +10,7 @@ import (
 func init() { register("C16", rulesC16, nil) }
 
 func rulesC16(c *Ctx) {
+	defer rulesC16Client(c)
 	tf := c.Fn(pM, "", "toolForErr")
 	applyObj := c.FnObj(pM, "", "applySchema")
 	unm := c.FnObj(pIJ, "", "Unmarshal")
@@ -618,6 +619,54 @@ func rulesC16(c *Ctx) {
 			c.Check(okT, "toolForErr:schema-type-pairing#"+itoa(want), tf, call, "the input schema is derived from In and the output schema from Out")
 		}
 	})
+}
+
+// rulesC16Client: the client-side code on which "the handler receives exactly the caller's values" depends.
+func rulesC16Client(c *Ctx) {
+	c.Rule("R-C16-5", "a multi-round-trip retry is the caller's request again: the client middleware re-sends the very request object it was given (only the input responses and the request state are filled in), so the typed handler sees the caller's arguments in every round", func() {
+		mw := c.Fn(pM, "", "clientMultiRoundTripMiddleware")
+		var inner *Func
+		for _, l := range mw.AllLits() {
+			if len(l.Params()) == 3 && len(l.AllLits()) == 0 {
+				inner = l
+			}
+		}
+		c.Need(inner != nil, "clientMultiRoundTripMiddleware: the handler literal")
+		c.touch(inner)
+		reqP := inner.ParamOfNamed(pM, "Request")
+		c.Need(reqP != nil, "handler literal: req parameter")
+		nextP := inner.Parent.ParamWhere(func(t types.Type) bool { return isNamedType(t, modPath+"/"+pM, "MethodHandler") })
+		n := 0
+		for _, call := range inner.AllCalls(inner.Body, false) {
+			if nextP == nil || inner.ObjOf(call.Fun) != types.Object(nextP) {
+				continue
+			}
+			n++
+			c.Check(len(call.Args) == 3 && inner.ObjOf(call.Args[2]) == types.Object(reqP), "mrtr:next-gets-the-callers-request#"+itoa(n), inner, call, "next(ctx, method, req) is called with the middleware's own req parameter")
+		}
+		c.Pin("next(...) calls in the client multi-round-trip middleware", n, 2)
+		c.Check(len(inner.writesToVar(inner.Body, reqP, true)) == 0, "mrtr:req-not-replaced", inner, nil, "the req parameter is never reassigned")
+		// the helper that prepares the retry only sets InputResponses and RequestState
+		sp := c.Fn(pM, "", "setMultiRoundTripRetryParams")
+		okSet := true
+		nSet := 0
+		for _, w := range Writes(sp.Body, false) {
+			if _, isLocal := ast.Unparen(w.LHS).(*ast.Ident); isLocal {
+				continue
+			}
+			sel, isSel := ast.Unparen(w.LHS).(*ast.SelectorExpr)
+			if !isSel {
+				okSet = false
+				continue
+			}
+			nSet++
+			if sel.Sel.Name != "InputResponses" && sel.Sel.Name != "RequestState" {
+				okSet = false
+			}
+		}
+		c.Check(okSet && nSet >= 6, "mrtr:retry-touches-only-state-fields", sp, nil, "setMultiRoundTripRetryParams assigns nothing but InputResponses and RequestState (%d assignments)", nSet)
+	})
+	c.Import("R-C16-6", "a schema-valid call is not turned away before it reaches the typed-tool machinery for want of its mirrored headers: the client derives Mcp-Param-* from every tool definition it has cached", "C12", "R-C12-9", nil)
 }
 
 // calleeIdent returns the identifier naming the (possibly instantiated) function of a call expression.
